@@ -554,12 +554,35 @@ func c18Enum(r *lp.Run, g *jgen) {
 		k := 1 + g.r.Intn(5)
 		var members []*J
 		kind := g.r.Intn(3)
-		for m := 0; m < k; m++ {
-			switch {
-			case kind == 0 || (kind == 2 && g.r.Bool()):
-				members = append(members, &J{kind: "num", raw: lp.Pick(g.r, safeNums)})
-			default:
-				members = append(members, &J{kind: "str", s: lp.Pick(g.r, safeStrs)})
+		if i%12 == 11 {
+			// long lists (17, 32, 100 … members) of distinct values with, half of the time, one member repeated far away
+			// in another spelling: detection does not depend on the size of the list or the distance
+			k = lp.Pick(g.r, []int{16, 17, 18, 32, 33, 64, 100})
+			kind = g.r.Intn(2) * 2
+			for m := 0; m < k; m++ {
+				if kind == 0 || m%2 == 0 {
+					members = append(members, &J{kind: "num", raw: fmt.Sprint(m + 3)})
+				} else {
+					members = append(members, &J{kind: "str", s: fmt.Sprintf("s%d", m)})
+				}
+			}
+			if g.r.Bool() {
+				src := g.r.Intn(k)
+				for members[src].kind != "num" {
+					src = g.r.Intn(k)
+				}
+				dup := &J{kind: "num", raw: members[src].raw + lp.Pick(g.r, []string{".0", "e0", ".00", "E+0", "0e-1"})}
+				at := g.r.Intn(k + 1)
+				members = append(members[:at:at], append([]*J{dup}, members[at:]...)...)
+			}
+		} else {
+			for m := 0; m < k; m++ {
+				switch {
+				case kind == 0 || (kind == 2 && g.r.Bool()):
+					members = append(members, &J{kind: "num", raw: lp.Pick(g.r, safeNums)})
+				default:
+					members = append(members, &J{kind: "str", s: lp.Pick(g.r, safeStrs)})
+				}
 			}
 		}
 		var parts []string
